@@ -138,6 +138,14 @@ def make_task_class(index: int):
                                 raise ConnectionError("low-level failure")
                             except ConnectionError as low:
                                 raise TransientError("scripted transient failure", context_update={key: nxt}) from low
+                        if style in ("from-transient", "from-stale"):
+                            # a retrying helper's own TransientError re-raised with the task's progress attached; the inner
+                            # error carries no progress of its own ("from-transient") or the progress of an earlier
+                            # attempt ("from-stale"): what the task attached to the error it raised is what counts
+                            try:
+                                raise TransientError("inner transient failure", **({"context_update": {key: ctx.get(key)}} if style == "from-stale" and ctx.get(key) is not None else {}))
+                            except TransientError as low:
+                                raise TransientError("scripted transient failure", context_update={key: nxt}) from low
                         if style == "cause":
                             raise TransientError("scripted transient failure", cause=TimeoutError("low-level timeout"),
                                                  context_update={key: nxt})
